@@ -322,17 +322,11 @@ Definition Known04 (w : world) (o : op) : bool :=
   | _ => false
   end.
 
-(* ---------- constructors whose preservation proof is not finished (covered by correspondence only).
-   OpSetCData is pending only where it re-keys: on a SHORT-NAME element that already has text. *)
+(* ---------- constructors whose preservation proof is not finished (covered by correspondence only) *)
 Definition Pending04 (w : world) (o : op) : bool :=
   match o with
   | OpCopy _ _ | OpCopyAt _ _ _ | OpMove _ _ | OpMoveAt _ _ _
   | OpSetItemName _ _ | OpRemoveFile _ _ | OpRemoveFromFile _ _ => true
-  | OpSetCData h _ =>
-    match w_nodes w h with
-    | Some n => (n_name n =? SHORTN) && match cdata_of T n with Some _ => true | None => false end
-    | None => false
-    end
   | _ => false
   end.
 
